@@ -14,8 +14,8 @@
     [ASetGlobal ok] "set_global_default returns Ok iff the cell was empty", [ABad] "not expressible, ignored".
     [agrees] compares an observation with that.  [Nested h]: guards are dropped innermost-first (LIFO). *)
 From Coq Require Import NArith List.
-From TV Require Import Dispatch.Model Dispatch.Shape Dispatch.Reentry Dispatch.Source Dispatch.Proofs_C01 Dispatch.Proofs_C02
-  Dispatch.Proofs_Reentry Dispatch.Proofs_Shape_C02.
+From TV Require Import Dispatch.Model Dispatch.Shape Dispatch.Reentry Dispatch.Source.
+From TV Require Import Dispatch.Proofs_C01 Dispatch.Proofs_C02 Dispatch.Proofs_Reentry Dispatch.Proofs_Shape_C02.
 From TVGen Require Import Gen_dispatch.
 Import ListNotations.
 Local Open Scope N_scope.
